@@ -35,6 +35,37 @@ PLAINTEXTS = [b"", b"x", b"sixteen byte msg", b"plaintext " * 7, b"\x00\xff bina
 DEFLATE_LOOKING = __import__("zlib").compress(b'{"pay":"mallory","amount":1000000}')[2:-4]
 
 
+def big_plaintexts(rng, tier):
+    """Plaintexts whose length sits at and just past the buffer sizes a streaming (de)compressor is likely to use, up to
+    the decompression limit, in four textures: constant, short period, JSON-like text, incompressible."""
+    sizes = [4095, 4096, 4097, 8192 + 3, 16384, 16384 + 1, 16384 + 3, 16384 + 100, 32768 + 1, 32768 + 200, 49152 + 7, 65536 + 5,
+             100000, 131072 + 9, 200000, 255999, 256000]
+    if tier == "quick":
+        sizes = [16384 + rng.choice([1, 3, 100]), 32768 + rng.choice([1, 200]), rng.choice([4097, 8195, 65541, 131081]), rng.choice([255999, 256000])]
+
+    def texture(kind, n):
+        if kind == "zeros":
+            return bytes(n)
+        if kind == "period":
+            unit = bytes(rng.randrange(256) for _ in range(rng.choice([7, 100, 1000, 6000])))
+            return (unit * (n // len(unit) + 1))[:n]
+        if kind == "json":
+            unit = b'{"id": %d, "name": "user-%d", "roles": ["a", "b"], "active": true}, '
+            out = bytearray()
+            i = 0
+            while len(out) < n:
+                out += unit % (i, i * 7919 % 1000)
+                i += 1
+            return bytes(out[:n])
+        return rng.randbytes(n)
+    out = []
+    for n in sizes:
+        kinds = ["zeros", "period", "json", "random"] if tier != "quick" else [rng.choice(["zeros", "json"]), rng.choice(["period", "random"])]
+        for kind in kinds:
+            out.append((f"{kind}-{n}", texture(kind, n)))
+    return out
+
+
 def key_name(alg, enc, rng=None):
     if alg == "dir":
         return DIR_KEY[R.cek_len(enc)]
@@ -152,6 +183,9 @@ def combos(rng, n=None, algs=None, encs=None):
 
 # ------------------------------------------------------------------------------------------------
 # tampering (C02 fault model)
+
+
+rewrite_protected = R.rewrite_protected
 
 
 def _split(v):
@@ -310,6 +344,15 @@ def tamper(case: DCase, rng, others=()):
     same = [n for n in K.names(kty[0]) if n != kn and K._SPECS[n][1] == kty[1]]
     other = same[0] if same else [n for n in K.names(kty[0]) if n != kn][0]
     mk(case.value, "wrong-recipient-key", key=K.key(other, private=True))
+    if kty[0] == "oct":
+        # keys related to the right one: a different key that merely contains it, or a piece of it
+        from joserfc.jwk import OctKey
+        raw = K.key(kn, private=True).raw_value
+        for label, rk in (("extended", raw + bytes([rng.randrange(256) for _ in range(rng.choice([1, 8, 16, len(raw)]))])),
+                          ("prefixed", bytes([rng.randrange(1, 256)]) * rng.choice([1, 8]) + raw),
+                          ("truncated", raw[:-1]), ("doubled", raw + raw)):
+            if rk:
+                mk(case.value, f"wrong-recipient-key-{label}", key=OctKey.import_key(rk))
     if m.get("sender"):
         sn = m["sender"]
         alt = [n for n in K.names(K._SPECS[sn][0]) if n != sn and K._SPECS[n][1] == K._SPECS[sn][1] and n != kn]
@@ -363,6 +406,7 @@ def run_decrypt_cases(ctx, suite, cases, check_c02=True, expect=None, prop=None)
             pass
     cases = keep
     answers = model_eval([c.line() for c in cases]) if getattr(ctx, "driver_ok", True) else [None] * len(cases)
+    first = []
     for c, m in zip(cases, answers):
         try:
             impl = ("ok", c.run_impl())
@@ -398,6 +442,8 @@ def run_decrypt_cases(ctx, suite, cases, check_c02=True, expect=None, prop=None)
             msg = ex(c, impl)
             if msg:
                 ctx.report(msg, {"case": c.describe(), "impl": repr(impl)[:300]}, f"{kind}:{c.note}")
+        first.append(impl)
+    J.repeat_pass(ctx, suite, cases, first, prop)
     return cases
 
 
